@@ -56,6 +56,31 @@ def check(prop: str, tier: str, repo: str | None, write: bool = True) -> int:
         prog = Program(repo)
         ctx, rep = run_rules(mod, prog)
         known = engine.load_known()
+        normal_form_note = None
+        if (any((not o.ok) and engine.match_known(o, prop, known) is None for o in rep.obligations) or rep.errors):
+            # Fallback: re-run on the normal form in which helpers that are not in the reference
+            # function table are inlined (a behaviour-preserving "extract method" refactoring
+            # must not change the verdict).  The verdict of the normal form is used only if it is clean.
+            from sa import normalize
+
+            try:
+                nsrc, inlined = normalize.normalize_sources(prog.sources)
+            except Exception as e:  # the normaliser must never turn into an alarm
+                nsrc, inlined = prog.sources, []
+                normal_form_note = f"normaliser failed: {type(e).__name__}: {e}"
+            if inlined:
+                prog2 = Program(repo, sources=nsrc)
+                try:
+                    ctx2, rep2 = run_rules(mod, prog2)
+                    bad2 = [o for o in rep2.obligations if (not o.ok) and engine.match_known(o, prop, known) is None]
+                    if not bad2 and not rep2.errors:
+                        normal_form_note = f"decided on the normal form with {len(inlined)} helper(s) inlined: {inlined}"
+                        rep2.notes.append(normal_form_note)
+                        prog, ctx, rep = prog2, ctx2, rep2
+                    else:
+                        normal_form_note = f"normal form ({inlined}) gives the same verdict"
+                except AnalysisError as e:
+                    normal_form_note = f"normal form not analysable: {e}"
         new_violations = []
         known_lines = []
         for ob in rep.obligations:
@@ -92,6 +117,8 @@ def check(prop: str, tier: str, repo: str | None, write: bool = True) -> int:
                 prop, tier, seed, time.time() - t0, rep, stats, mod.EXPLANATION, list(getattr(mod, "ASSUMPTIONS", [])),
                 len(new_violations), known_lines, extra,
             )
+        if normal_form_note:
+            print(f"NOTE property={prop} {normal_form_note}")
         n_ok = sum(1 for o in rep.obligations if o.ok)
         print(f"{prop} [{tier}] obligations={len(rep.obligations)} discharged={n_ok} known={len(known_lines)} "
               f"violations={len(new_violations)} functions={stats['functions']} wall={time.time() - t0:.2f}s")
